@@ -98,8 +98,8 @@ public:
 	posit& operator=(char rhs) { return operator=((long long)(rhs)); }
 	posit& operator=(unsigned short rhs) { return operator=((long long)(rhs)); }
 	posit& operator=(unsigned int rhs) { return operator=((long long)(rhs)); }
-	posit& operator=(unsigned long rhs) { return operator=((long long)(rhs)); }
-	posit& operator=(unsigned long long rhs) { return operator=((long long)(rhs)); }
+	posit& operator=(unsigned long rhs) { return operator=((unsigned long long)(rhs)); }
+	posit& operator=(unsigned long long rhs) { return operator=(rhs > 0x7FFF'FFFF'FFFF'FFFFull ? 0x7FFF'FFFF'FFFF'FFFFll : (long long)(rhs)); }
 	posit& operator=(float rhs) { return float_assign(rhs); }
 	posit& operator=(double rhs) { return float_assign(float(rhs)); }
 	posit& operator=(long double rhs) { return float_assign(float(rhs)); }
